@@ -114,6 +114,14 @@ Theorem C05_multisig_verdict :
   forall (net : net) (m : N) (keys : list (pform * bytes)), Forall (fun fk : pform * bytes => pfits (fst fk) (snd fk)) keys -> 1 <= m -> m <= N.of_nat (length keys) -> N.of_nat (length keys) <= 16 -> eval_btc net (ms_script m keys) = (BMultiSig, None).
 Proof. exact multisig_verdict. Qed.
 
+Theorem C05_address_only_for_address_types :
+  forall (n : net) (l : bytes) (a : list N), snd (eval_btc n l) = Some a -> In (fst (eval_btc n l)) [BP2PK; BP2PKH; BP2SH; BP2WPKH; BP2WSH; BP2TR; BWitnessProgram].
+Proof. exact address_only_for_address_types. Qed.
+
+Theorem C05_not_recognised_has_no_address :
+  forall (n : net) (l : bytes), fst (eval_btc n l) = BNotRecognised -> snd (eval_btc n l) = None.
+Proof. exact not_recognised_has_no_address. Qed.
+
 Print Assumptions C05_p2pkh_shape.
 Print Assumptions C05_p2sh_shape.
 Print Assumptions C05_p2pk_shape.
@@ -142,3 +150,5 @@ Print Assumptions C05_sha256_output_is_bytes.
 Print Assumptions C05_hash160_output_is_bytes.
 Print Assumptions C05_multisig_shape_accepted.
 Print Assumptions C05_multisig_verdict.
+Print Assumptions C05_address_only_for_address_types.
+Print Assumptions C05_not_recognised_has_no_address.
